@@ -113,12 +113,68 @@ func conv(v interface{}, t tkind) (interface{}, convRes) {
 	return nil, cFail
 }
 
-func hashable(v interface{}) bool {
-	switch v.(type) {
-	case []interface{}, map[interface{}]interface{}, []int64, []string, []float64, [][]int64, map[string]int64:
-		return false
-	}
+// Host-defined struct types of the state (embedded structs by value, by
+// pointer, two levels, a shadowing outer field; struct keys).
+type Base struct {
+	ID   int64
+	Name string
+}
+type User struct {
+	Base
+	Age int64
+}
+type PUser struct {
+	*Base
+	Age int64
+}
+type Deep struct {
+	User
+	Tag string
+}
+type Shadow struct {
+	Base
+	ID int64
+}
+type HostS struct {
+	N int64
+	L []int64
+}
+type HostI struct{ V interface{} }
+
+// script-made struct values used as map keys
+type skT = struct {
+	A int64
+	B string
+}
+type suT = struct {
+	A []int64
+	B int64
+}
+
+// hashable: can v be a key of a Go map[interface{}]...?  Decided by Go itself.
+func hashable(v interface{}) (ok bool) {
+	defer func() {
+		if recover() != nil {
+			ok = false
+		}
+	}()
+	probe := map[interface{}]struct{}{}
+	probe[v] = struct{}{}
 	return true
+}
+
+// keyOf: the model keeps script-made (addressable) struct values behind a
+// pointer; used as a map key it is the struct VALUE, as in anko and in Go.
+func keyOf(v interface{}) interface{} {
+	switch p := v.(type) {
+	case *HostI:
+		return *p
+	case *mst:
+		return *p
+	case *User:
+		return v // a real pointer handed in by the host stays a pointer
+	}
+	return v
 }
 
 // control flow inside the evaluator
@@ -290,6 +346,12 @@ func (m *machine) eval(e expr) interface{} {
 		l := m.eval(x.l)
 		r := m.eval(x.r)
 		return m.add(l, r)
+	case eMapLit:
+		k := keyOf(m.eval(x.k))
+		if !hashable(k) {
+			fail() // an unhashable key in a map literal is an error
+		}
+		return map[interface{}]interface{}{k: m.eval(x.v)}
 	}
 	panic("c10 model: unknown expression")
 }
@@ -342,6 +404,7 @@ func (m *machine) index(c, i interface{}) interface{} {
 		}
 		return cv[k : k+1] // the addressed byte, as a string
 	case map[interface{}]interface{}:
+		i = keyOf(i)
 		if !hashable(i) {
 			return nil // an unhashable key reads as nil
 		}
@@ -597,8 +660,42 @@ func (m *machine) member(c interface{}, name string) interface{} {
 		}
 		return v
 	}
+	// any other struct (value or pointer): Go's own field selection, which
+	// includes fields promoted from embedded structs and lets an outer field
+	// shadow an embedded one
+	if f, ok := structField(c, name); ok {
+		if f.Kind() == reflect.Struct && f.CanAddr() {
+			return f.Addr().Interface() // keep the field addressable for a later store
+		}
+		return f.Interface()
+	}
 	fail()
 	return nil
+}
+
+// structField selects field name of the struct c is or points to.
+func structField(c interface{}, name string) (f reflect.Value, ok bool) {
+	defer func() {
+		if recover() != nil { // nil embedded pointer on the path
+			ok = false
+			undet("field selection through a nil embedded pointer")
+		}
+	}()
+	if c == nil {
+		return f, false
+	}
+	rv := reflect.ValueOf(c)
+	for rv.Kind() == reflect.Ptr {
+		if rv.IsNil() {
+			return f, false
+		}
+		rv = rv.Elem()
+	}
+	if rv.Kind() != reflect.Struct {
+		return f, false
+	}
+	f = rv.FieldByName(name)
+	return f, f.IsValid()
 }
 
 func mustConv(v interface{}, t tkind) interface{} {
@@ -817,6 +914,7 @@ func (m *machine) assign(lhs expr, v interface{}) {
 			}
 			m.assign(l.c, cv[:k]+sv+cv[k+1:])
 		case map[interface{}]interface{}:
+			i = keyOf(i)
 			if !hashable(i) {
 				fail()
 			}
@@ -868,7 +966,27 @@ func (m *machine) assign(lhs expr, v interface{}) {
 			}
 			cv[l.name] = x
 		default:
-			fail()
+			f, ok := structField(c, l.name)
+			if !ok {
+				fail()
+			}
+			if !f.CanSet() {
+				undet("store into a struct held by value")
+			}
+			switch {
+			case f.Type() == tInt64:
+				f.SetInt(mustConv(v, kInt64).(int64))
+			case f.Type() == tString:
+				f.SetString(mustConv(v, kString).(string))
+			case f.Kind() == reflect.Interface:
+				if v == nil {
+					f.Set(reflect.Zero(f.Type()))
+				} else {
+					f.Set(reflect.ValueOf(v))
+				}
+			default:
+				undet("store into a field of a type outside the conversion table")
+			}
 		}
 	default:
 		undet("assignment target outside the alphabet")
@@ -917,6 +1035,8 @@ func storesInto(s stmt, name string) bool {
 		return rootVar(x.lhs) == name
 	case sAddEq:
 		return rootVar(x.lhs) == name
+	case sMapItem:
+		return rootVar(x.v) == name || rootVar(x.ok) == name
 	case sDel:
 		return rootVar(x.m) == name
 	case sCall:
@@ -941,6 +1061,27 @@ func (m *machine) run(s stmt) (val interface{}, hasVal bool) {
 		v := m.eval(eAdd{x.lhs, x.rhs})
 		m.assign(x.lhs, v)
 		return nil, false
+	case sMapItem:
+		// v, ok = m[k]: the value and whether the key is there; an unhashable
+		// key is (nil, false) like any key that is not in the map
+		v := m.eval(x.rhs)
+		if v == nil {
+			if c, isMap := m.eval(x.rhs.c).(map[interface{}]interface{}); isMap {
+				k := keyOf(m.eval(x.rhs.i))
+				if hashable(k) {
+					if _, present := c[k]; present {
+						undet("v, ok = m[k] for an entry that holds nil")
+					}
+				}
+			}
+		}
+		m.assign(x.v, v)
+		m.assign(x.ok, v != nil)
+		if lv, isVar := x.v.(eVar); isVar && lv.name == "x" && m.local == nil {
+			m.taintX = m.typedRead(x.rhs)
+			m.taintRoot, m.taintDirty = rootVar(x.rhs), false
+		}
+		return nil, false
 	case sDel:
 		c := m.eval(x.m)
 		if x.k == nil {
@@ -953,6 +1094,7 @@ func (m *machine) run(s stmt) (val interface{}, hasVal bool) {
 		k := m.eval(x.k)
 		switch cv := c.(type) {
 		case map[interface{}]interface{}:
+			k = keyOf(k)
 			if !hashable(k) {
 				fail()
 			}
